@@ -34,6 +34,8 @@ def scenarios(tier):
                 N = 3 if q else 5
                 out.append(dict(name=f"continuous-R{R}-f{f}-N{N}-{'rev' if rev else 'fwd'}", fn="run", params=dict(R=R, N=N, rev=rev, cont=f, mmax=2, names=False), cost=R ** 3 * N * 2))
     out.append(dict(name="names-in-config", fn="run", params=dict(R=2, N=3, rev=False, cont=0, mmax=1, names=True), cost=5))
+    out.append(dict(name="typed-disc", fn="run", params=dict(R=2, N=3, rev=False, cont=0, mmax=2, names=False, typed=True), cost=5))
+    out.append(dict(name="typed-cont", fn="run", params=dict(R=2, N=3, rev=False, cont=1, mmax=1, names=True, typed=True), cost=5))
     out.append(dict(name="lonlat", fn="run", params=dict(R=2, N=3, rev=False, cont=0, mmax=1, names=False, lonlat=True), cost=5))
     # the same through the real ROMS Grid.ll2xy (inverse bilinear interpolation) on a wide and on a tall affine grid
     out.append(dict(name="lonlat-roms-wide", fn="run", params=dict(R=2, N=3, rev=False, cont=0, mmax=1, names=False, lonlat=True, roms=(9, 5)), cost=10))
@@ -80,9 +82,16 @@ def run(W, p):
     else:
         cols = ["release_time", "X", "Y", "Z", "mult", "tag", "farm"]
     rows = [[times[i], xs[i], ys[i], zs[i], mult[i], tags[i], farms[i]] for i in range(R)]
+    typed = bool(p.get("typed"))
+    if typed:
+        # two more declared columns: a time (ISO text in the file) and the activity flag written as 0/1
+        hatch = [W.dt(START - 86400 * (i + 1)) for i in range(R)]
+        act = [W.idx(W.int(f"act{i}", 0, 1)) for i in range(R)]
+        cols = cols + ["hatch", "active"]
+        rows = [r + [hatch[i], act[i]] for i, r in enumerate(rows)]
     W.table(path, cols, rows, header=not p["names"])
     timer = tk.TimeKeeper(start=W.dt(START), stop=W.dt(START + sgn * N * DT), dt=DT, time_reversal=rev)
-    S = st.State(instance_variables=dict(tag=float, farm=int), particle_variables=dict(release_time="time"))
+    S = st.State(instance_variables=dict(tag=float, farm=int, **(dict(hatch="time") if p.get("typed") else {})), particle_variables=dict(release_time="time"))
     grid = _AffineGrid(W) if lonlat else None
     if p.get("roms"):
         # real ROMS grid with lon = 4 + 2 i, lat = 60 + j / 4 (the same affine map as the stand-in); rows pinned inside cells
@@ -153,7 +162,16 @@ def run(W, p):
                 tconds.append(W.eq(FA[q], farms[i]))
                 if n0 + q < len(RT):
                     tconds.append(W.eq(W.sec_of(RT[n0 + q]), START + sgn * s * DT))
-            W.prove(W.all(tconds), "typed-columns", dict(step=s, mc=mc, mult=mult))
+            if typed:
+                # declared types survive the release: times are times (not text), flags are booleans (not 0/1 integers)
+                tconds.append(W.kind_of(S.variables["hatch"]) == "M")
+                tconds.append(W.kind_of(S.variables["active"]) == "b")
+                if W.kind_of(S.variables["hatch"]) == "M":
+                    HA = W.tolist(S.variables["hatch"])[n0:]
+                    tconds += [W.eq(W.sec_of(HA[q]), W.sec_of(hatch[i])) for q, i in enumerate(exp)]
+                AC = W.tolist(S.variables["active"])[n0:]
+                tconds += [W.eq(AC[q], bool(act[i])) if W.kind_of(S.variables["active"]) == "b" else False for q, i in enumerate(exp)]
+            W.prove(W.all(tconds) if all(c is not False for c in tconds) else False, "typed-columns", dict(step=s, mc=mc, mult=mult, kinds=[W.kind_of(S.variables[v]) for v in ("farm", "release_time") + (("hatch", "active") if typed else ())]))
         npid += got_n
     if not cont:
         lo = sum(mult[i] for i in upto_stop if mc[i] < N)
